@@ -1,6 +1,6 @@
 import Harper.Basic.Proto
 import Harper.Model.Overlaps
-namespace Harper.Driver
+namespace Harper.Driver.Overlaps
 open Harper Harper.Proto
 
 def parseLint (w : String) : Option Lint :=
@@ -25,4 +25,4 @@ def handleRi (args : List String) : String :=
     | _, _, _ => "bad-op"
   | _ => "bad-op"
 
-end Harper.Driver
+end Harper.Driver.Overlaps
